@@ -45,6 +45,15 @@ Example O14_dirfs_single_syscall :
        "filesys.DirFs.Open"; "filesys.DirFs.ReadAt"; "filesys.DirFs.Delete"; "filesys.DirFs.Link"]
   = [1; 1; 1; 1; 1; 1; 1; 1]%nat.
 Proof. vm_compute. reflexivity. Qed.
+(* ... and it is the positional call: a read through a descriptor shared by
+   several goroutines does not go through the descriptor's offset *)
+Example O14_dirfs_which_syscall :
+  map (fun k => flat_map unix_calls (sk_of k))
+      ["filesys.DirFs.Mkdir"; "filesys.DirFs.Create"; "filesys.DirFs.Append"; "filesys.DirFs.Close";
+       "filesys.DirFs.Open"; "filesys.DirFs.ReadAt"; "filesys.DirFs.Delete"; "filesys.DirFs.Link"]
+  = [["unix.Mkdirat"]; ["unix.Openat"]; ["unix.Write"]; ["unix.Close"];
+     ["unix.Openat"]; ["unix.Pread"]; ["unix.Unlinkat"]; ["unix.Linkat"]].
+Proof. vm_compute. reflexivity. Qed.
 (* DirFs keeps no mutable state in the process *)
 Example O14_dirfs_stateless :
   all_methods "filesys.DirFs." (fun ss => negb (existsb (writes_to "fs.") ss)) skeletons = true.
